@@ -327,7 +327,7 @@ func RunScanDeps(pkgLoader PackageLoader, target string, opts models.ScanOptions
 				}
 			}()
 			var ssaPkgs []*ssa.Package
-			prog, ssaPkgs = ssautil.AllPackages(batch, ssa.InstantiateGenerics)
+			prog, ssaPkgs = ssautil.AllPackages(batch, ssa.BuilderMode(0))
 			if prog == nil || len(ssaPkgs) == 0 {
 				fmt.Fprintf(os.Stderr, "warning: failed to build SSA for batch\n")
 			} else {
